@@ -14,6 +14,60 @@ def bounded_inputs(run, n, count):
         yield d
 
 
+def weights_check(run, upto):
+    """Exhaustive over the player counts a float64 factorial can express: the contribution coefficients of the real helper
+    are s! (n-1-s)! for every n (exact Python integers as the reference; correctly rounded doubles expected)."""
+    from math import factorial
+    from pyvc.mode import native_pkg
+    sh = native_pkg().mod("shapley")
+    f = getattr(sh, "_get_contributions", None)
+    rows = []
+    if f is None:
+        run.exhaustive.append({"label": "contribution coefficients", "rows": [], "exhaustive": False,
+                               "space": "helper _get_contributions not present any more: covered by the large-n run only"})
+        return
+    bad = None
+    for n in range(1, upto + 1):
+        got = [float(x) for x in f(n)]
+        want = [float(factorial(s) * factorial(n - 1 - s)) for s in range(n)]
+        ok = len(got) == n and all(abs(g - w) <= 4e-16 * abs(w) for g, w in zip(got, want))
+        run.native_evals += 1
+        run.native_distinct.add(("weights", n))
+        if not ok and bad is None:
+            bad = {"n": n, "got": got[:4], "expected": want[:4]}
+    run.exhaustive.append({"label": "contribution coefficients s!(n-1-s)! of the real helper", "rows": [{"n_upto": upto, "failure": bad}],
+                           "exhaustive": True, "space": f"n = 1..{upto}"})
+    if bad:
+        run._report_violation(f"weights[n={bad['n']}]/coefficients_are_factorial_products", S.sc_shapley, {"n": bad["n"]}, bad, True,
+                              detail={"layer": "exhaustive over player counts", "witness": bad})
+
+
+def large_n_check(run, n):
+    """Bounded: the public entry point at a player count where 64-bit integer factorials no longer fit (n >= 22):
+    in an additive game every player's Shapley value is its singleton value; one player computed."""
+    import numpy as np
+    from pyvc.mode import native_pkg
+    P = native_pkg()
+    sh, game_m = P.mod("shapley"), P.mod("game")
+    w = np.array([float(run.rng.randint(1, 9)) for _ in range(n)])
+    ids = np.arange(1 << n)
+    vals = np.zeros(1 << n)
+    for i in range(n):
+        vals += ((ids >> i) & 1) * w[i]
+    g = game_m.IncompleteCooperativeGame(n)
+    g.set_values(vals)
+    i = run.rng.randrange(n)
+    phi = float(sh.compute_shapley_value_for_player(i, g))
+    run.native_evals += 1
+    run.native_distinct.add(("large", n))
+    ok = abs(phi - w[i]) <= 1e-9 * max(1.0, abs(w[i]))
+    run.bounded.append({"label": f"additive game at n={n}", "evaluations": 1, "failures": int(not ok),
+                        "bound": "one player of one additive game; Shapley value must equal the singleton value"})
+    if not ok:
+        run._report_violation(f"large[n={n}]/additive_game_value", S.sc_shapley, {"n": n}, {"player": i, "phi": phi, "singleton": float(w[i])},
+                              True, detail={"layer": "bounded"})
+
+
 def main(run):
     pkg = run.package()
     run.under_contract(pkg, "shapley", ["_get_contributions", "compute_shapley_value_for_player",
@@ -35,6 +89,9 @@ def main(run):
         cnt = 3 if run.tier == "quick" else 6
         run.bounded_run(f"float[n={n}]", S.sc_shapley, {"n": n}, bounded_inputs(run, n, cnt), tol=1e-9,
                         bound=f"{cnt} seeded games, the n! orderings enumerated by the spec, relative tolerance 1e-9")
+    weights_check(run, 100)
+    if run.tier != "quick":
+        large_n_check(run, 22)
     return run.finish(
         explanation="Both entry points proved equal, for every real-valued game and every player, to the average marginal "
                     "contribution with coefficients obtained by enumerating the n! orderings; efficiency, null player, "
